@@ -40,6 +40,8 @@ func (m *imem) Size() uint32       { return 1 << 24 }
 func (m *imem) Clear()             {}
 func (m *imem) Dump(uint32) []byte { return nil }
 
+var bulkLeft = 6 // bulk-attach repetitions still allowed in this process
+
 func busScenario(r *rand.Rand, emit func(map[string]interface{})) {
 	b, _ := bus.New()
 	emit(map[string]interface{}{"k": "newbus"})
@@ -158,7 +160,16 @@ func busScenario(r *rand.Rand, emit func(map[string]interface{})) {
 			} else {
 				p = guard(func() { err = b.Attach(mems[m], "m", s, e) })
 			}
-			emit(map[string]interface{}{"k": "attach", "m": m, "s": s, "e": e, "err": err != nil, "panic": p != ""})
+			times := 1
+			if err == nil && p == "" && m <= 4 && bulkLeft > 0 && r.Intn(3) == 0 {
+				// the same Attach repeated tens of thousands of times on this bus (routing is unchanged by a repetition)
+				times = []int{255, 256, 65534, 65535, 65536, 65540}[r.Intn(6)]
+				bulkLeft--
+				for i := 1; i < times; i++ {
+					b.Attach(mems[m], "m", s, e)
+				}
+			}
+			emit(map[string]interface{}{"k": "attach", "m": m, "s": s, "e": e, "err": err != nil, "panic": p != "", "times": times})
 		case x < 5:
 			a := near()
 			acc = acc[:0]
@@ -183,6 +194,41 @@ func busScenario(r *rand.Rand, emit func(map[string]interface{})) {
 				}
 			}
 			emit(map[string]interface{}{"k": "write", "a": a, "v": int(v), "panic": p != "", "seen": append([][]int{}, acc...), "landed": landed})
+		case x == 9 && r.Intn(12) == 0:
+			// a dump longer than 64 KiB (offsets that do not fit 16 bits), judged against byte-wise reads of the REAL bus:
+			// position i holds what a single read of start+i returns, positions of unattached addresses stay untouched
+			s := near()
+			n := []int{0xFFFF, 0x10000, 0x10001, 0x10010, 0x20000, 0x12345}[r.Intn(6)]
+			if int(s)+n > 1<<24 {
+				s = uint32(1<<24 - n)
+			}
+			e := s + uint32(n) - 1
+			buf := make([]byte, n+32)
+			for i := range buf {
+				buf[i] = 255
+			}
+			var got int
+			p := guard(func() { got = b.EaDump(s, e, buf) })
+			mism, first := 0, -1
+			for i := 0; i < n; i++ {
+				want := byte(255) // untouched
+				func() {
+					defer func() { recover() }()
+					want = b.EaRead(s + uint32(i))
+				}()
+				if buf[i] != want {
+					mism++
+					if first < 0 {
+						first = i
+					}
+				}
+			}
+			for i := n; i < len(buf); i++ {
+				if buf[i] != 255 {
+					mism++
+				}
+			}
+			emit(map[string]interface{}{"k": "bigdump", "s": s, "e": e, "n": got, "mism": mism, "first": first, "panic": p != ""})
 		default:
 			s := near()
 			e := s + uint32(r.Intn(80))
